@@ -4,7 +4,17 @@ Engine E2, deviation-bounded (DESIGN section 4/C01).  Abstract packages = part n
 style vector (mc/props/c01_gen.py) are written by the harness's own zip/dir writer, round-tripped
 through `OpcPackage.open(x).save(out)` and judged with the independent reader `mc.oracles.opc_ref`
 applied to input and output; `save(open(out))` must then reproduce the same members byte for byte.
-The corpus decks (68 files at the pinned revision) go through the same oracle with `OpcPackage` and with `pptx.Presentation`.
+The corpus decks (68 files at the pinned revision) go through the same oracle with `OpcPackage` and with
+`pptx.Presentation`.
+
+History dimension of the 'zip path' container form: every path-form round trip of a process uses ONE fixed
+input path P and ONE fixed output path Q.  A path-form evaluation is the history  write constant package
+D at P; open(P).save(Q); open(Q).save(stream);  REWRITE P with the package under test; open(P).save(Q)
+(rewriting Q); open(Q).save(stream)  -- judged by the same oracle on what was written at P (the D step
+under rule 'history:<rule>').  P and Q therefore carry successive different packages (D, X1, D, X2, ...),
+which exposes state kept per path between opens; D being constant keeps the verdict a pure function of the
+package under test, so replay and signature minimisation stay deterministic.  Corpus decks go through the
+same kind of history (default.pptx, then the deck, via one fixed P/Q) with both APIs, plus a stream form.
 
 Enumerated space (pure function of the tier):
 
@@ -20,7 +30,7 @@ Enumerated space (pure function of the tier):
   PML slide type | the same XML kept as blob), container (zip stream | zip path | directory), orphan
   (none | unreachable typed members present), parallel (none | every edge doubled | exactly edge i
   doubled, for every i), external (none | on the root | on part i, for every i | on every source).
-* quick (78 485 packages + 136 corpus round trips): k <= 2 every labelled graph x every style vector with
+* quick (85 279 packages + 204 corpus round trips): k <= 2 every labelled graph x every style vector with
   <= 1 deviating slot; k = 3 every labelled graph x <= 1 deviating slot without the populous values
   (other name sets, per-edge doubling) and those populous values on one representative per isomorphism
   class (440 classes).
@@ -33,7 +43,8 @@ Signatures: `C01|rule|minimal deviation set|shape class`.  Every failing (case, 
 pure function of the case: smallest sub-vector of its deviations that still fails on the same graph; 'any'
 if the star graph fails too (then the part set is shrunk), otherwise parts and edges are removed greedily
 and the remaining graph is classified (selfloop / cycle / shared-target / chain / star).  Corpus
-signatures are `C01|rule|corpus|<content type or extension detail>`.
+signatures are `C01|rule|corpus|<content type or extension detail>`, or `C01|rule|corpus:path|any` when the
+deck fails that way only through the reused paths.
 
 Deviations from DESIGN.md (documented reductions of an exploding space):
 * parallel edges and external relationships are style slots (one deviation each) rather than part of
@@ -66,11 +77,13 @@ from mc.oracles import opc_ref
 from mc.props import c01_gen as G
 
 LEVEL = "exploration"
-RULE = ("abstract packages = (k part names out of six) x (every simple rooted digraph on root+k parts with all parts "
+RULE = ("abstract packages = (k part names out of seven) x (every simple rooted digraph on root+k parts with all parts "
         "reachable; k=4: one per isomorphism class) x (style vector over 10 slots: names, types, ctdecl, target, ids, "
         "payload, container, orphan, parallel, external) with at most d deviating slots; every point is written by the "
         "harness, round-tripped through OpcPackage.open/save twice and compared with an independent OPC reader; plus "
-        "every corpus deck through OpcPackage and Presentation. Non-trivial = the style vector has at least one "
+        "every corpus deck through OpcPackage and Presentation. The zip-path form is a history through one fixed input "
+        "path and one fixed output path per process (constant package first, then the package under test written "
+        "over it; output path re-opened for the second save). Non-trivial = the style vector has at least one "
         "deviation or the graph is not the plain star (it has a self-loop, a cycle, a shared target or a part linked only from another part); points are "
         "enumerated once each, hence distinct by construction.")
 ASSUMPTIONS = [
@@ -78,7 +91,8 @@ ASSUMPTIONS = [
     "parallel edges, external relationships and the choice of part names are style slots, not crossed exhaustively with each other beyond the deviation bound",
     "reference reader mc.oracles.opc_ref (zipfile + bare lxml) and the abstract model agree on every generated input (asserted per case)",
     "XML-equivalence = C14N without comments after dropping blank text in element-only content outside xml:space=preserve",
-    "payload alphabet: 5 fixed payloads; part-name alphabet: 6 names; ids alphabet: 4 schemes",
+    "payload alphabet: 5 fixed payloads; part-name alphabet: 7 names; ids alphabet: 4 schemes",
+    "path histories have length 2 (constant package, then the package under test) per evaluation; paths are reused across all evaluations of a worker process",
 ]
 
 GRAPH_COUNTS = {1: 2, 2: 32, 3: 2432}
@@ -229,26 +243,32 @@ def _ctkind(pkg, pn):
         return "?"
 
 
-def _open_save(api, src):
-    """One open+save with the real implementation; returns bytes of the saved zip."""
+def _open_save(api, src, dst=None):
+    """One open+save with the real implementation; returns bytes of the saved zip.  With `dst` (a path
+    string) the package is saved to that path and the bytes found there afterwards are returned."""
     with warnings.catch_warnings():
         warnings.simplefilter("ignore")
-        buf = io.BytesIO()
+        target = io.BytesIO() if dst is None else dst
         if api == "opc":
             from pptx.opc.package import OpcPackage
-            OpcPackage.open(src).save(buf)
+            OpcPackage.open(src).save(target)
         elif api == "prs":
             from pptx import Presentation
-            Presentation(src).save(buf)
+            Presentation(src).save(target)
         else:
             raise ValueError(api)
-        return buf.getvalue()
+        if dst is None:
+            return target.getvalue()
+        with open(dst, "rb") as fh:
+            return fh.read()
 
 
-def roundtrip_failures(api, src, inp):
-    """Run open+save twice on the implementation and compare. `src` is what is handed to open()."""
+def roundtrip_failures(api, src, inp, via=None):
+    """Run open+save twice on the implementation and compare. `src` is what is handed to open().
+    via=None: save to a stream and re-open the stream.  via=<path>: save to that path and re-open the
+    PATH for the second save (the same path is reused by every path-form round trip of the process)."""
     try:
-        out1 = _open_save(api, src)
+        out1 = _open_save(api, src, via)
     except Exception as e:  # in-domain input: must not raise
         return [("op-raised", type(e).__name__, "open+save raised %r" % (e,))]
     try:
@@ -256,7 +276,7 @@ def roundtrip_failures(api, src, inp):
     except Exception as e:
         return [("out-unreadable", type(e).__name__, "saved package unreadable: %r" % (e,))]
     try:
-        out2b = _open_save(api, io.BytesIO(out1))
+        out2b = _open_save(api, io.BytesIO(out1) if via is None else via)
     except Exception as e:
         return compare(inp, out, None) + [("op-raised-resave", type(e).__name__, "second open+save raised %r" % (e,))]
     try:
@@ -264,6 +284,33 @@ def roundtrip_failures(api, src, inp):
     except Exception as e:
         return compare(inp, out, None) + [("out-unreadable-resave", type(e).__name__, repr(e))]
     return compare(inp, out, out2)
+
+
+def _fixed_paths(tag):
+    """The ONE input path and ONE output path this process uses for every path-form round trip."""
+    d = fixtures.tmpdir()
+    return os.path.join(d, "c01-%s-in.pptx" % tag), os.path.join(d, "c01-%s-out.pptx" % tag)
+
+
+def path_history_failures(api, tag, first_bytes, second_bytes):
+    """History through fixed paths P (input) and Q (output): write `first_bytes` at P, open(P).save(Q),
+    open(Q).save(stream); then REWRITE P with `second_bytes`, open(P).save(Q) (rewriting Q), open(Q)
+    .save(stream).  Both steps are judged by the usual oracle on what was written at P; the failures of
+    the first step are reported under rule 'history:<rule>'.  The first package is a constant (per tag),
+    so the verdict is a pure function of the second package even if the implementation keeps state
+    between opens of one path."""
+    P, Q = _fixed_paths(tag)
+    fails = []
+    for step, blob in (("history:", first_bytes), ("", second_bytes)):
+        with open(P, "wb") as fh:
+            fh.write(blob)
+        inp = opc_ref.read(blob)
+        if opc_ref.read(P).members != inp.members:
+            raise HarnessError("what is on disk at %s is not what was written" % P)
+        for rule, kind, detail in roundtrip_failures(api, P, inp, via=Q):
+            fails.append((step + rule, kind, detail + (" [first package of the path history]" if step else
+                                                       " [path reused: rewritten after an earlier open]")))
+    return fails
 
 
 # ---- generated cases ---------------------------------------------------------------------------------
@@ -309,6 +356,15 @@ def check_model(case, members, model, inp):
 
 
 _seq = [0]
+_DECOY = []
+
+
+def _decoy_bytes():
+    """Constant first package of every generated path history (shares no part name with the alphabet)."""
+    if not _DECOY:
+        members, _model = G.build(make_case(["/zz/decoy.dat", "/zz/w.xml"], [[-1, 0], [0, 1], [1, 1]], {"external": "root"}))
+        _DECOY.append(fixtures.write_zip(members))
+    return _DECOY[0]
 
 
 def eval_case(case):
@@ -323,11 +379,7 @@ def eval_case(case):
     base = os.path.join(fixtures.tmpdir(), "c01-%d-%d" % (os.getpid(), _seq[0]))
     try:
         if cont == "path":
-            p = base + ".zip"
-            with open(p, "wb") as fh:
-                fh.write(fixtures.write_zip(members))
-            # the path form also must agree with what the reference reader sees on disk
-            return roundtrip_failures("opc", p, opc_ref.read(p))
+            return path_history_failures("opc", "gen", _decoy_bytes(), fixtures.write_zip(members))
         if cont == "dir":
             os.makedirs(base)
             fixtures.write_dir(members, base)
@@ -336,8 +388,6 @@ def eval_case(case):
     finally:
         if os.path.isdir(base):
             shutil.rmtree(base, True)
-        if os.path.exists(base + ".zip"):
-            os.remove(base + ".zip")
 
 
 _cache = {}
@@ -554,19 +604,27 @@ def _work_k4(part, chunk):
 
 # ---- corpus ------------------------------------------------------------------------------------------
 
-def corpus_failures(path, api):
+CORPUS_MODES = ("opc-path", "prs-path", "prs-stream")
+
+
+def corpus_failures(path, mode):
+    """mode 'opc-path'/'prs-path': default.pptx, then this deck, through the process's one fixed input
+    path and one fixed output path (see path_history_failures); 'prs-stream': file-like in and out."""
     inp = opc_ref.read(path)
     if inp.ct_error:
         return None, "unreadable"
     if inp.dangling():
         return None, "dangling"
-    src = path if api == "opc" else io.BytesIO(fixtures.read_bytes(path))
-    return roundtrip_failures(api, src, inp), None
+    blob = fixtures.read_bytes(path)
+    if mode == "prs-stream":
+        return roundtrip_failures("prs", io.BytesIO(blob), inp), None
+    first = fixtures.read_bytes(fixtures.DEFAULT_PPTX)
+    return path_history_failures(mode.split("-")[0], "deck", first, blob), None
 
 
 def _work_corpus(part, chunk):
-    for path, api in chunk:
-        fails, skip = corpus_failures(path, api)
+    for path, mode in chunk:
+        fails, skip = corpus_failures(path, mode)
         if skip:
             part.count("corpus_skipped_%s" % skip)
             part.add("corpus_skipped_decks", fixtures.corpus_name(path))
@@ -574,15 +632,29 @@ def _work_corpus(part, chunk):
         part.count("evaluations")
         part.count("corpus_evaluations")
         part.count("nontrivial_count")
-        part.outcome("corpus:" + api, "fail:" + fails[0][0] if fails else "ok")
+        part.outcome("corpus:" + mode, "fail:" + fails[0][0] if fails else "ok")
         seen = set()
         for rule, kind, detail in fails:
-            sig = "C01|%s|corpus|%s" % (rule, kind)
+            # a failure that needs the reused path is one defect whatever part it hits: no part kind in it
+            if mode.endswith("-path") and _path_only(path, mode, rule, kind):
+                sig = "C01|%s|corpus:path|any" % rule
+            else:
+                sig = "C01|%s|corpus|%s" % (rule, kind)
             if sig in seen:
                 continue
             seen.add(sig)
-            part.violation(sig, "%s (%s via %s): %s" % (rule, fixtures.corpus_name(path), api, detail),
-                           {"kind": "corpus", "deck": fixtures.corpus_name(path), "api": api, "rule": rule, "ctkind": kind})
+            part.violation(sig, "%s (%s via %s): %s" % (rule, fixtures.corpus_name(path), mode, detail),
+                           {"kind": "corpus", "deck": fixtures.corpus_name(path), "mode": mode, "rule": rule, "ctkind": kind})
+
+
+def _path_only(path, mode, rule, kind):
+    """True if the same deck does not fail the same way through streams (the failure needs the path form)."""
+    if rule.startswith("history:"):
+        return True
+    api = mode.split("-")[0]
+    inp = opc_ref.read(path)
+    again = roundtrip_failures(api, io.BytesIO(fixtures.read_bytes(path)), inp)
+    return not any(r == rule and k == kind for r, k, _ in again)
 
 
 # ---- run / replay ------------------------------------------------------------------------------------
@@ -682,7 +754,7 @@ def run(ctx):
     decks = fixtures.corpus()
     if len(decks) < 60:
         raise HarnessError("corpus has only %d decks" % len(decks))
-    citems = [(p, api) for p in decks for api in ("opc", "prs")]
+    citems = [(p, mode) for p in decks for mode in CORPUS_MODES]
     fanout(ctx, _work_corpus, ctx.rotate(citems), chunk_size=4)
     ctx.extra["corpus_decks"] = len(decks)
     if ctx.counters.get("corpus_evaluations", 0) < len(decks):
@@ -699,7 +771,7 @@ def replay(data):
         return None
     if data["kind"] == "corpus":
         path = os.path.join(fixtures.REPO, data["deck"])
-        fails, skip = corpus_failures(path, data["api"])
+        fails, skip = corpus_failures(path, data["mode"])
         if skip:
             return None
         for rule, kind, detail in fails:
